@@ -937,6 +937,9 @@ func (fb *functionBuilder) emitText(txt []byte, inURL, isURLSet bool) {
 	fb.text.addr = fb.currentAddr()
 	fb.text.txt = append(fb.text.txt, txt)
 	fb.text.inURL = inURL
+	if len(fb.fn.Text) == maxTextsCount {
+		panic(newLimitExceededError(fb.fn.Pos, fb.path, "texts count exceeded %d", maxTextsCount))
+	}
 	a, b := encodeUint16(uint16(len(fb.fn.Text)))
 	var c int8
 	if inURL {
